@@ -18,7 +18,7 @@ func init() { register(&Spec{ID: "C02", Targets: []load.Target{load.Linux}, Run:
 
 func runC02(c *core.Ctx) {
 	runFixtures(c, "bounds", "drop")
-	c.Explain("Bytes, offsets and EOF timing are values and not decidable statically. Decided mechanisms: (R02.1) access-mode capability: no method of the read-only handle wrapper reaches a content mutator (blob.Set/Grow/Truncate), no method of the write-only wrapper reaches a content reader (blob.View/Slice), over the static call graph — a read-only handle can never change contents, a write-only handle can never read them; (R02.2) directory guard as sibling agreement: every byte-I/O method of the file type that touches the content blob (read, write, truncate) has an IsDir() guard before the blob access whose taken edge returns an ErrIsDir-class error; (R02.3) live size: in the methods that compare an offset/size parameter with the file size, the size is the length of the content loaded in that call (a Size() of the record cached at open time is flagged), so every handle sees the current size; (R02.4) validate before mutate: on every path of the write and truncate methods the first content mutator is dominated by the rejection of a negative offset/size. (R02.5) a write method that redirects its offset to the content length under the O_APPEND test hands the redirected offset back (result or handle field), so the handle's position ends at the new end of file; (R02.6) every content mutation of a write is dominated by 'the data is not empty' — an empty write beyond the end must not grow the file; (R02.7) the handle's Stat loads the content before returning a regular file's info, so Size() is current; (R02.8) a method that passes its own offset parameter to the write primitive (a positioned write) does so only below a test of the append flag whose other side returns an error — os.File refuses WriteAt on an O_APPEND handle, and silently appending instead would put the bytes somewhere else than asked; (R02.9 = R01.6) the flag reaches the handle on every path of OpenFile; (R02.10) in Seek every store into the handle's offset is dominated by the rejection of a negative value of what is stored — a failed Seek must leave the position unchanged; (R02.11) the in-memory store's set stores the contents blob it is given itself, not a copy: handles of one file see each other's writes because they share that blob. NOT claimed: transferred bytes, offsets, EOF exactness, zero fill, O_APPEND placement, coherence beyond R02.3.")
+	c.Explain("Bytes, offsets and EOF timing are values and not decidable statically. Decided mechanisms: (R02.1) access-mode capability: no method of the read-only handle wrapper reaches a content mutator (blob.Set/Grow/Truncate), no method of the write-only wrapper reaches a content reader (blob.View/Slice), over the static call graph — a read-only handle can never change contents, a write-only handle can never read them; (R02.2) directory guard as sibling agreement: every byte-I/O method of the file type that touches the content blob (read, write, truncate) has an IsDir() guard before the blob access whose taken edge returns an ErrIsDir-class error; (R02.3) live size: in the methods that compare an offset/size parameter with the file size, the size is the length of the content loaded in that call (a Size() of the record cached at open time is flagged), so every handle sees the current size; (R02.4) validate before mutate: on every path of the write and truncate methods the first content mutator is dominated by the rejection of a negative offset/size. (R02.5) a write method that redirects its offset to the content length under the O_APPEND test hands the redirected offset back (result or handle field), so the handle's position ends at the new end of file; (R02.6) every content mutation of a write is dominated by 'the data is not empty' — an empty write beyond the end must not grow the file; (R02.7) the handle's Stat loads the content before returning a regular file's info, so Size() is current; (R02.8) a method that passes its own offset parameter to the write primitive (a positioned write) does so only below a test of the append flag whose other side returns an error — os.File refuses WriteAt on an O_APPEND handle, and silently appending instead would put the bytes somewhere else than asked; (R02.9 = R01.6) the flag reaches the handle on every path of OpenFile; (R02.10) in Seek every store into the handle's offset is dominated by the rejection of a negative value of what is stored — a failed Seek must leave the position unchanged; (R02.11) the in-memory store's set stores the contents blob it is given itself, not a copy: handles of one file see each other's writes because they share that blob; (R02.12) in every handle method that changes the content blob and then writes the record back, the path on which the write-back fails changes the blob again (restores it) before returning — 'a call that fails leaves the contents unchanged' (known finding: it does not). NOT claimed: transferred bytes, offsets, EOF exactness, zero fill, O_APPEND placement, coherence beyond R02.3.")
 	c.Assume("the static call graph is complete for these wrappers (they call the inner *file statically)")
 	c.RuleDoc("R02.1", "access-mode wrappers cannot reach forbidden content operations")
 	c.RuleDoc("R02.2", "directory guard on every byte-I/O method")
@@ -29,6 +29,7 @@ func runC02(c *core.Ctx) {
 	c.RuleDoc("R02.9", "the flag OpenFile was called with reaches the handle on every path (= R01.6)")
 	c.RuleDoc("R02.10", "Seek stores the new offset only after rejecting a negative one")
 	c.RuleDoc("R02.11", "the in-memory store keeps the blob it is given (handles share it)")
+	c.RuleDoc("R02.12", "a mutation whose write-back fails is undone")
 	c.RuleDoc("R02.8", "a positioned write refuses a handle opened with O_APPEND")
 	c.RuleDoc("R02.7", "a handle's Stat loads the content, so the size it reports is current")
 	for _, p := range c.Progs {
@@ -46,6 +47,7 @@ func runC02(c *core.Ctx) {
 			r01FlagReachesHandle(c, p, sh, "R02.9")
 		}
 		r02SeekValidates(c, p, fileT)
+		r02FailedSaveRestores(c, p, fileT)
 		r02StoreKeepsBlob(c, p)
 	}
 	c.Floor("R02.1", 2)
@@ -510,6 +512,59 @@ func r02AppendOffset(c *core.Ctx, p *load.Program, fileT *types.Named, fn *ssa.F
 				})
 			}
 		}
+		// an empty write hands back the offset it was given, not the end of the file: os.File does not move the position
+		// of an O_APPEND handle for a write of nothing (path-sensitive: all Len() tests of the data agree on one path)
+		{
+			isLenZero := func(cond ssa.Value) (bool, bool) { // (is such a test, polarity: true means "cond true <=> empty")
+				bo, ok := cond.(*ssa.BinOp)
+				if !ok || (bo.Op != token.EQL && bo.Op != token.NEQ) {
+					return false, false
+				}
+				for _, side := range []ssa.Value{bo.X, bo.Y} {
+					if cl, ok := ssax.StripIntConv(side).(*ssa.Call); ok && cl.Call.IsInvoke() && cl.Call.Method.Name() == "Len" {
+						if _, isParam := cl.Call.Value.(*ssa.Parameter); isParam {
+							return true, bo.Op == token.EQL
+						}
+					}
+				}
+				return false, false
+			}
+			var badRet *ssa.Return
+			ssax.EnumPaths(fn, fn.Blocks[0], 0, nil, ssax.PathHooks{
+				EvalCond: func(s *ssax.PathState, cond ssa.Value) (bool, bool) {
+					if is, pol := isLenZero(cond); is && s.Counts["len"] != 0 {
+						empty := s.Counts["len"] == 1
+						return empty == pol, true
+					}
+					return false, false
+				},
+				Branch: func(s *ssax.PathState, cond ssa.Value, taken bool) {
+					if is, pol := isLenZero(cond); is {
+						if taken == pol {
+							s.Counts["len"] = 1 // empty
+						} else {
+							s.Counts["len"] = 2
+						}
+					}
+				},
+				End: func(s *ssax.PathState, last ssa.Instruction) {
+					r, ok := last.(*ssa.Return)
+					if !ok || s.Counts["len"] != 1 || badRet != nil {
+						return
+					}
+					for _, rv := range r.Results {
+						if rv == ssa.Value(redirected) && s.Resolve(rv) != ssa.Value(prm) {
+							badRet = r
+						}
+					}
+				},
+			})
+			if badRet != nil {
+				c.Bad("R02.5", typeKey(fileT)+"."+fn.Name()+"|empty-write-keeps-offset", p.Pos(badRet.Pos()), fmt.Sprintf("%s answers an empty write with the offset already redirected to the end of the file: Write(nil) on a handle opened with O_APPEND moves the handle's position to the end, and the next Read returns EOF where os.File still reads from the old position", fname(fn)))
+			} else {
+				c.OK("R02.5", typeKey(fileT)+"."+fn.Name()+"|empty-write-keeps-offset", p.Pos(fn.Pos()), "an empty write returns the offset it was given on every path")
+			}
+		}
 		c.Check(handed, "R02.5", key, p.Pos(redirected.Pos()), "the offset the write was made at is returned (or stored in the handle)",
 			fmt.Sprintf("%s moves %s to the end of the file for a handle opened with O_APPEND but never hands that offset back: the caller advances the handle's position from the stale offset, so after an append the next sequential read or write happens in the middle of the file (os.File leaves the offset at the new end)", fname(fn), prm.Name()))
 	}
@@ -757,4 +812,65 @@ func r02StoreKeepsBlob(c *core.Ctx, p *load.Program) {
 	})
 	c.Check(kept && other == "", "R02.11", key, p.Pos(set.Pos()), "the record's data is the blob passed in (the contents argument or the source record's own Data())",
 		fmt.Sprintf("mem.(*store).set stores something else than the contents blob it was given (%s): the record no longer shares the blob that open handles mutate in place, so a handle opened between two writes of another handle keeps reading the old bytes and size", other))
+}
+
+
+// r02FailedSaveRestores (R02.12)
+func r02FailedSaveRestores(c *core.Ctx, p *load.Program, fileT *types.Named) {
+	mut := blobFuncs(p, "Set", "Grow", "Truncate")
+	var saveFn *ssa.Function
+	if fd := p.Named("keyvalue", "fileData"); fd != nil {
+		saveFn = methodsOf(p, fd)["save"]
+	}
+	if saveFn == nil {
+		c.Hard("anchor: keyvalue.fileData.save")
+		return
+	}
+	ms := methodsOf(p, fileT)
+	var names []string
+	for n := range ms {
+		names = append(names, n)
+	}
+	sort.Strings(names)
+	for _, name := range names {
+		fn := ms[name]
+		if fn.Blocks == nil {
+			continue
+		}
+		var firstMut *ssa.Call
+		ssax.Instrs(fn, func(ins ssa.Instruction) {
+			if cl, ok := ins.(*ssa.Call); ok && mut[ssax.StaticCallee(cl)] && firstMut == nil {
+				firstMut = cl
+			}
+		})
+		if firstMut == nil {
+			continue
+		}
+		for _, b := range fn.Blocks {
+			for idx, ins := range b.Instrs {
+				sv, ok := ins.(*ssa.Call)
+				if !ok || ssax.StaticCallee(sv) != saveFn {
+					continue
+				}
+				key := typeKey(fileT) + "." + name + "|failed-write-back-restores"
+				init := ssax.NewPathState()
+				init.SetNil(sv, ssax.NonNil)
+				restored := true
+				ssax.EnumPaths(fn, b, idx+1, init, ssax.PathHooks{
+					Instr: func(s *ssax.PathState, i2 ssa.Instruction) {
+						if cl, ok := i2.(*ssa.Call); ok && mut[ssax.StaticCallee(cl)] {
+							s.Counts["undo"] = 1
+						}
+					},
+					End: func(s *ssax.PathState, _ ssa.Instruction) {
+						if s.Counts["undo"] == 0 {
+							restored = false
+						}
+					},
+				})
+				c.Check(restored, "R02.12", key, p.Pos(sv.Pos()), "the failing write-back is followed by a restoring mutation",
+					fmt.Sprintf("%s changes the content blob (at %s) before it writes the record back, and returns the write-back's error without undoing the change: the call fails, yet this handle — and, where the store shares blobs, every other handle — reads the new bytes and size ('a call that fails leaves the contents unchanged')", fname(fn), p.Pos(firstMut.Pos())))
+			}
+		}
+	}
 }
